@@ -25,6 +25,80 @@ Lemma neps_pos : 0 < @neps R RNum.
 Proof. rewrite neps_R. apply Rinv_0_lt_compat. apply pow_lt. lra. Qed.
 
 (* ---------------------------------------------------------------------------
+   The pivot threshold EPSILON * n * max|a_ij|
+   --------------------------------------------------------------------------- *)
+Lemma plu_scale_inv n (a : mat R) (Q : R -> Prop) :
+  Q 0 -> (forall i j, (i < n)%nat -> (j < n)%nat -> forall s, Q s -> Q (if Rltb s (Rabs (a i j)) then Rabs (a i j) else s)) ->
+  Q (plu_scale n a).
+Proof.
+  intros H0 Hs. unfold plu_scale.
+  pose proof (for_range_inv (fun (_ : nat) (s : R) => Q s) 0 n) as H. cbn [Nat.add] in H. apply H; clear H.
+  - exact H0.
+  - intros i s Hi HQ.
+    pose proof (for_range_inv (fun (_ : nat) (s : R) => Q s) 0 n) as H. cbn [Nat.add] in H. apply H; clear H.
+    + exact HQ.
+    + intros j s' Hj HQ'. cbv zeta. unfold ngtb. cbn [nltb nabs RNum]. apply Hs; try lia. exact HQ'.
+Qed.
+
+Lemma plu_scale_nonneg n (a : mat R) : 0 <= plu_scale n a.
+Proof.
+  apply (plu_scale_inv n a (fun s => 0 <= s)); [lra|].
+  intros i j _ _ s Hs. destruct (Rltb s (Rabs (a i j))); [apply Rabs_pos|exact Hs].
+Qed.
+
+Lemma plu_scale_le n (a : mat R) M :
+  0 <= M -> (forall i j, (i < n)%nat -> (j < n)%nat -> Rabs (a i j) <= M) -> plu_scale n a <= M.
+Proof.
+  intros HM Hb. apply (plu_scale_inv n a (fun s => s <= M)); [exact HM|].
+  intros i j Hi Hj s Hs. destruct (Rltb s (Rabs (a i j))); [apply Hb; assumption|exact Hs].
+Qed.
+
+(* the scan is monotone, so every entry is below the final scale *)
+Lemma scan_ge (f : nat -> R) lo len s0 :
+  let r := for_range lo len (fun col s => let magnitude := nabs (f col) in if ngtb magnitude s then magnitude else s) s0 in
+  s0 <= r /\ forall c, (lo <= c < lo + len)%nat -> Rabs (f c) <= r.
+Proof.
+  cbv zeta. induction len as [|len [IH1 IH2]].
+  - cbn [for_range]. split; [lra|intros c Hc; lia].
+  - rewrite for_range_S. set (r := for_range lo len _ s0) in *.
+    unfold ngtb. cbn [nltb nabs RNum].
+    destruct (Rltb r (Rabs (f (lo + len)%nat))) eqn:E.
+    + apply Rltb_true in E. split; [lra|]. intros c Hc.
+      destruct (Nat.eq_dec c (lo + len)) as [->|Hne]; [lra|]. specialize (IH2 c ltac:(lia)). lra.
+    + apply Rltb_false in E. split; [exact IH1|]. intros c Hc.
+      destruct (Nat.eq_dec c (lo + len)) as [->|Hne]; [exact E|]. apply IH2. lia.
+Qed.
+
+Lemma plu_scale_ge n (a : mat R) i j : (i < n)%nat -> (j < n)%nat -> Rabs (a i j) <= plu_scale n a.
+Proof.
+  intros Hi Hj. unfold plu_scale.
+  assert (H : forall len s0,
+            let r := for_range 0 len (fun row s => for_range 0 n
+                        (fun col s => let magnitude := nabs (a row col) in if ngtb magnitude s then magnitude else s) s) s0 in
+            s0 <= r /\ ((i < len)%nat -> Rabs (a i j) <= r)).
+  { induction len as [|len IH]; intro s0; cbv zeta.
+    - cbn [for_range]. split; [lra|lia].
+    - rewrite for_range_S. cbn [Nat.add].
+      destruct (IH s0) as [I1 I2]. cbv zeta in I1, I2.
+      set (r := for_range 0 len _ s0) in *.
+      destruct (scan_ge (fun col => a len col) 0 n r) as [S1 S2]. cbv zeta in S1, S2.
+      split; [lra|]. intro Hlt.
+      destruct (Nat.eq_dec i len) as [->|Hne]; [apply S2; lia|].
+      specialize (I2 ltac:(lia)). lra. }
+  destruct (H n n0) as [_ H2]. cbv zeta in H2. apply H2. exact Hi.
+Qed.
+
+Lemma plu_threshold_R n (a : mat R) : plu_threshold n a = neps * INR n * plu_scale n a.
+Proof. unfold plu_threshold. cbn [nmul RNum]. unfold nofnat. cbn [nofZ RNum]. rewrite <- INR_IZR_INZ. reflexivity. Qed.
+
+Lemma plu_threshold_nonneg n (a : mat R) : 0 <= plu_threshold n a.
+Proof.
+  rewrite plu_threshold_R. apply Rmult_le_pos; [apply Rmult_le_pos|apply plu_scale_nonneg].
+  - left. apply neps_pos.
+  - apply pos_INR.
+Qed.
+
+(* ---------------------------------------------------------------------------
    The split of the packed factors
    --------------------------------------------------------------------------- *)
 Lemma plu_lower_lt (m : mat R) r t : (t < r)%nat -> plu_lower m r t = m r t.
@@ -198,13 +272,13 @@ Definition PCore (n : nat) (A : mat R) (i : nat) (m : mat R) (s : nat -> nat) : 
   forall r c, (r < n)%nat -> (c < n)%nat ->
     A (s r) c = msum 0 i (fun t => plu_lower m r t * plu_upper m t c) + rest i m r c.
 
-Definition PInv (n : nat) (A : mat R) (i : nat) (m p : mat R) : Prop :=
+Definition PInv (n : nat) (A : mat R) (thr : R) (i : nat) (m p : mat R) : Prop :=
   (exists s s', (forall r, (r < n)%nat -> (s r < n)%nat /\ (s' r < n)%nat /\ s' (s r) = r /\ s (s' r) = r) /\
                 perm_mat n s p /\ PCore n A i m s) /\
   (forall r c, (r < n)%nat -> (c < i)%nat -> (c < r)%nat -> Rabs (m r c) <= 1) /\
-  (forall t, (t < i)%nat -> (t < n)%nat -> neps <= Rabs (m t t)).
+  (forall t, (t < i)%nat -> (t < n)%nat -> thr < Rabs (m t t)).
 
-Lemma PInv_init n (A : mat R) : PInv n A 0 A midentity.
+Lemma PInv_init n (A : mat R) thr : PInv n A thr 0 A midentity.
 Proof.
   split; [|split].
   - exists (fun r => r), (fun r => r). split; [intros r Hr; repeat split; exact Hr|]. split.
@@ -278,28 +352,28 @@ Proof.
   rewrite Rmult_assoc, Rinv_l by lra. lra.
 Qed.
 
-Definition plu_post (n : nat) (A : mat R) (i : nat) (acc : res (mat R * mat R)) : Prop :=
+Definition plu_post (n : nat) (A : mat R) (thr : R) (i : nat) (acc : res (mat R * mat R)) : Prop :=
   match acc with
-  | Ok (m, p) => PInv n A i m p
+  | Ok (m, p) => PInv n A thr i m p
   | Err e => e = ESingularMatrix
   | Panic _ => False
   end.
 
-Lemma plu_step_post n A i acc :
-  (i < n)%nat -> plu_post n A i acc -> plu_post n A (S i) (plu_step n i acc).
+Lemma plu_step_post n A thr i acc :
+  (i < n)%nat -> 0 <= thr -> plu_post n A thr i acc -> plu_post n A thr (S i) (plu_step n thr i acc).
 Proof.
-  intros Hi H. destruct acc as [[m p]|e|w]; cbn [plu_step plu_post] in *; [|exact H|exact H].
+  intros Hi Hthr H. destruct acc as [[m p]|e|w]; cbn [plu_step plu_post] in *; [|exact H|exact H].
   destruct (pivot_search_spec n i m Hi) as [Hq Hmax]. cbv zeta in Hq, Hmax.
   set (q := fst (plu_pivot_search n i m)) in *.
   set (m1 := if (q =? i)%nat then m else mswap_rows m q i).
   set (p1 := if (q =? i)%nat then p else mswap_rows p q i).
   assert (Em1 : forall r c, m1 r c = m (tau i q r) c) by (intros; unfold m1; apply swap_tau).
   assert (Ep1 : forall r c, p1 r c = p (tau i q r) c) by (intros; unfold p1; apply swap_tau).
-  cbn [nltb nabs RNum].
-  destruct (Rltb (Rabs (m1 i i)) neps) eqn:Echk; [reflexivity|].
-  apply Rltb_false in Echk. cbn [plu_post].
+  cbn [nleb nabs RNum].
+  destruct (Rleb (Rabs (m1 i i)) thr) eqn:Echk; [reflexivity|].
+  apply Rleb_false in Echk. cbn [plu_post].
   assert (Hp : m1 i i <> 0).
-  { intro E. rewrite E, Rabs_R0 in Echk. pose proof neps_pos. lra. }
+  { intro E. rewrite E, Rabs_R0 in Echk. lra. }
   destruct H as [[s [s' [Hs [Hpm Hcore]]]] [Hmult Hpiv]].
   rewrite plu_eliminate_len.
   destruct (eliminate_len_spec n i (n - S i) m1 Hi) as [E1 [E2 E3]].
@@ -337,22 +411,24 @@ Proof.
     rewrite Em1, tau_low by lia. apply Hpiv; lia.
 Qed.
 
-Lemma plu_loop_post n (A : mat R) : plu_post n A n (for_range 0 n (plu_step n) (Ok (A, midentity))).
+Lemma plu_loop_post n (A : mat R) thr : 0 <= thr ->
+  plu_post n A thr n (for_range 0 n (plu_step n thr) (Ok (A, midentity))).
 Proof.
-  pose proof (for_range_inv (plu_post n A) 0 n (plu_step n) (Ok (A, midentity))) as H.
+  intro Hthr.
+  pose proof (for_range_inv (plu_post n A thr) 0 n (plu_step n thr) (Ok (A, midentity))) as H.
   cbn [Nat.add] in H. apply H.
   - cbn [plu_post]. apply PInv_init.
-  - intros i acc Hi. apply plu_step_post. lia.
+  - intros i acc Hi. apply plu_step_post; [lia|exact Hthr].
 Qed.
 
 (* what a successful run returns *)
 Lemma plu_ok_inv n (A L U P : mat R) :
   plu n n A = Ok (L, U, P) ->
-  exists m, PInv n A n m P /\ meq n L (plu_lower m) /\ meq n U (plu_upper m).
+  exists m, PInv n A (plu_threshold n A) n m P /\ meq n L (plu_lower m) /\ meq n U (plu_upper m).
 Proof.
   unfold plu. rewrite Nat.eqb_refl. cbn [negb].
-  pose proof (plu_loop_post n A) as Hpost.
-  destruct (for_range 0 n (plu_step n) (Ok (A, midentity))) as [[m p]|e|w]; [|discriminate|discriminate].
+  pose proof (plu_loop_post n A (plu_threshold n A) (plu_threshold_nonneg n A)) as Hpost.
+  destruct (for_range 0 n (plu_step n (plu_threshold n A)) (Ok (A, midentity))) as [[m p]|e|w]; [|discriminate|discriminate].
   intro H. injection H as <- <- <-. exists m. split; [exact Hpost|].
   split; apply meq_retab.
 Qed.
@@ -361,8 +437,8 @@ Lemma plu_outcome n (A : mat R) :
   plu n n A = Err ESingularMatrix \/ exists L U P, plu n n A = Ok (L, U, P).
 Proof.
   unfold plu. rewrite Nat.eqb_refl. cbn [negb].
-  pose proof (plu_loop_post n A) as Hpost.
-  destruct (for_range 0 n (plu_step n) (Ok (A, midentity))) as [[m p]|e|w]; cbn [plu_post] in Hpost.
+  pose proof (plu_loop_post n A (plu_threshold n A) (plu_threshold_nonneg n A)) as Hpost.
+  destruct (for_range 0 n (plu_step n (plu_threshold n A)) (Ok (A, midentity))) as [[m p]|e|w]; cbn [plu_post] in Hpost.
   - right. eexists _, _, _. reflexivity.
   - left. subst e. reflexivity.
   - contradiction.
@@ -397,15 +473,17 @@ Proof.
     + rewrite plu_lower_lt by exact Hij. apply Hmult; lia.
 Qed.
 
-(* the pivots of a returned U are at least EPSILON in absolute value *)
+(* the pivots of a returned U exceed the threshold EPSILON * n * max|a_ij| >= 0 in absolute value *)
 Lemma c09_plu_pivots : forall (n : nat) (A L U P : mat R), plu n n A = Ok (L, U, P) ->
-  forall i, (i < n)%nat -> neps <= Rabs (U i i) /\ U i i <> 0.
+  forall i, (i < n)%nat ->
+    0 <= plu_threshold n A /\ plu_threshold n A < Rabs (U i i) /\ U i i <> 0.
 Proof.
   intros n A L U P H i Hi.
   destruct (plu_ok_inv n A L U P H) as [m [[_ [_ Hpiv]] [_ EU]]].
   rewrite EU by assumption. rewrite plu_upper_le by lia.
-  pose proof (Hpiv i Hi Hi) as Hp. split; [exact Hp|].
-  intro E. rewrite E, Rabs_R0 in Hp. pose proof neps_pos. lra.
+  pose proof (Hpiv i Hi Hi) as Hp. pose proof (plu_threshold_nonneg n A) as Ht.
+  split; [exact Ht|]. split; [exact Hp|].
+  intro E. rewrite E, Rabs_R0 in Hp. lra.
 Qed.
 
 Lemma perm_mat_row n s (P A : mat R) i j :
@@ -473,15 +551,74 @@ Proof.
   rewrite neps_R. rewrite <- Rinv_1. apply Rinv_le_contravar; [lra|]. apply pow_R1_Rle. lra.
 Qed.
 
-Lemma plu_step_eval n i (m p : mat R) q :
-  fst (plu_pivot_search n i m) = q -> neps <= Rabs (m (tau i q i) i) ->
-  plu_step n i (Ok (m, p)) =
+Lemma plu_step_eval n thr i (m p : mat R) q :
+  fst (plu_pivot_search n i m) = q -> thr < Rabs (m (tau i q i) i) ->
+  plu_step n thr i (Ok (m, p)) =
   Ok (retab n n (plu_eliminate n i (if (q =? i)%nat then m else mswap_rows m q i)),
       retab n n (if (q =? i)%nat then p else mswap_rows p q i)).
 Proof.
-  intros Hq Hc. cbn [plu_step]. rewrite Hq. cbn [nltb nabs RNum]. rewrite swap_tau.
-  replace (Rltb (Rabs (m (tau i q i) i)) neps) with false by (symmetry; apply Rltb_false; exact Hc).
+  intros Hq Hc. cbn [plu_step]. rewrite Hq. cbn [nleb nabs RNum]. rewrite swap_tau.
+  replace (Rleb (Rabs (m (tau i q i) i)) thr) with false by (symmetry; apply Rleb_false; exact Hc).
   reflexivity.
+Qed.
+
+Lemma plu_step_refuse n thr i (m p : mat R) q :
+  fst (plu_pivot_search n i m) = q -> Rabs (m (tau i q i) i) <= thr ->
+  plu_step n thr i (Ok (m, p)) = Err ESingularMatrix.
+Proof.
+  intros Hq Hc. cbn [plu_step]. rewrite Hq. cbn [nleb nabs RNum]. rewrite swap_tau.
+  replace (Rleb (Rabs (m (tau i q i) i)) thr) with true by (symmetry; apply Rleb_true; exact Hc).
+  reflexivity.
+Qed.
+
+(* 2^-52 * 2 * s < 1 for s <= 2^30 *)
+Lemma small_threshold s : 0 <= s -> s <= 2 ^ 30 -> neps * INR 2 * s < 1.
+Proof.
+  intros H0 H1. rewrite neps_R. cbn [INR].
+  assert (Hp : 0 < / 2 ^ 52) by (apply Rinv_0_lt_compat; apply pow_lt; lra).
+  apply Rle_lt_trans with (/ 2 ^ 52 * (1 + 1) * 2 ^ 30).
+  - apply Rmult_le_compat_l; [nra|exact H1].
+  - replace (2 ^ 52) with (2 ^ 30 * 2 ^ 22) by (rewrite <- pow_add; reflexivity).
+    assert (H30 : 0 < 2 ^ 30) by (apply pow_lt; lra).
+    assert (H22 : 4 <= 2 ^ 22) by (replace 4 with (2 ^ 2) by ring; apply Rle_pow; [lra|lia]).
+    rewrite Rinv_mult.
+    replace (/ 2 ^ 30 * / 2 ^ 22 * (1 + 1) * 2 ^ 30) with ((2 ^ 30 * / 2 ^ 30) * (2 * / 2 ^ 22)) by ring.
+    rewrite Rinv_r by lra. rewrite Rmult_1_l.
+    apply Rmult_lt_reg_r with (2 ^ 22); [lra|]. rewrite Rmult_assoc, Rinv_l by lra. lra.
+Qed.
+
+(* closed form of the entry (1,1) after the only elimination step of a 2x2 run *)
+Lemma elim_2x2 (m1 : mat R) :
+  retab 2 2 (plu_eliminate 2 0 m1) 1%nat 1%nat =
+  m1 1%nat 1%nat - m1 1%nat 0%nat / m1 0%nat 0%nat * m1 0%nat 1%nat.
+Proof.
+  rewrite retab_spec by lia. rewrite plu_eliminate_len.
+  destruct (eliminate_len_spec 2 0 (2 - 1) m1) as [_ [E2 _]]; [lia|].
+  apply E2; cbn; lia.
+Qed.
+
+(* [[0,1],[1,d]]: row interchange, pivots 1 and 1 *)
+Lemma plu_2x2_swap_ok (a : mat R) :
+  a 0%nat 0%nat = 0 -> a 0%nat 1%nat = 1 -> a 1%nat 0%nat = 1 -> plu_threshold 2 a < 1 ->
+  exists L U P, plu 2 2 a = Ok (L, U, P).
+Proof.
+  intros E00 E01 E10 Hthr.
+  unfold plu. cbn [Nat.eqb negb for_range].
+  rewrite (plu_step_eval 2 _ 0 a midentity 1).
+  - cbn [Nat.eqb].
+    set (m1 := mswap_rows a 1 0).
+    rewrite (plu_step_eval 2 _ 1 (retab 2 2 (plu_eliminate 2 0 m1)) _ 1).
+    + eexists _, _, _. reflexivity.
+    + reflexivity.
+    + rewrite tau_i, elim_2x2.
+      replace (m1 1%nat 1%nat) with 1 by (unfold m1, mswap_rows; cbn [Nat.eqb]; rewrite E01; reflexivity).
+      replace (m1 1%nat 0%nat) with 0 by (unfold m1, mswap_rows; cbn [Nat.eqb]; rewrite E00; reflexivity).
+      replace (m1 0%nat 0%nat) with 1 by (unfold m1, mswap_rows; cbn [Nat.eqb]; rewrite E10; reflexivity).
+      replace (1 - 0 / 1 * m1 0%nat 1%nat) with 1 by field. rewrite Rabs_R1. exact Hthr.
+  - unfold plu_pivot_search. cbn [Nat.sub for_range snd]. rewrite E00, E10.
+    unfold ngtb. cbn [nltb nabs RNum]. rewrite Rabs_R0, Rabs_R1.
+    replace (Rltb 0 1) with true by (symmetry; apply Rltb_true; lra). reflexivity.
+  - rewrite tau_i, E10, Rabs_R1. exact Hthr.
 Qed.
 
 Lemma ex_plu_ok : exists L U P, plu 2 2 ex_swap = Ok (L, U, P).
@@ -490,26 +627,12 @@ Proof.
   assert (E01 : ex_swap 0%nat 1%nat = 1) by reflexivity.
   assert (E10 : ex_swap 1%nat 0%nat = 1) by reflexivity.
   assert (E11 : ex_swap 1%nat 1%nat = 0) by reflexivity.
-  unfold plu. cbn [Nat.eqb negb for_range].
-  rewrite (plu_step_eval 2 0 ex_swap midentity 1).
-  - cbn [Nat.eqb].
-    set (m1 := mswap_rows ex_swap 1 0).
-    set (m' := retab 2 2 (plu_eliminate 2 0 m1)).
-    rewrite (plu_step_eval 2 1 m' _ 1).
-    + eexists _, _, _. reflexivity.
-    + reflexivity.
-    + rewrite tau_i. unfold m'. rewrite retab_spec by lia. rewrite plu_eliminate_len.
-      destruct (eliminate_len_spec 2 0 (2 - 1) m1) as [_ [E2 _]]; [lia|].
-      rewrite E2 by (cbn; lia).
-      replace (m1 1%nat 1%nat) with 1 by (unfold m1, mswap_rows; cbn [Nat.eqb]; rewrite E01; reflexivity).
-      replace (m1 1%nat 0%nat) with 0 by (unfold m1, mswap_rows; cbn [Nat.eqb]; rewrite E00; reflexivity).
-      replace (m1 0%nat 0%nat) with 1 by (unfold m1, mswap_rows; cbn [Nat.eqb]; rewrite E10; reflexivity).
-      replace (m1 0%nat 1%nat) with 0 by (unfold m1, mswap_rows; cbn [Nat.eqb]; rewrite E11; reflexivity).
-      replace (1 - 0 / 1 * 0) with 1 by field. rewrite Rabs_R1. apply neps_le_1.
-  - unfold plu_pivot_search. cbn [Nat.sub for_range snd]. rewrite E00, E10.
-    unfold ngtb. cbn [nltb nabs RNum]. rewrite Rabs_R0, Rabs_R1.
-    replace (Rltb 0 1) with true by (symmetry; apply Rltb_true; lra). reflexivity.
-  - rewrite tau_i, E10, Rabs_R1. apply neps_le_1.
+  apply plu_2x2_swap_ok; try assumption.
+  rewrite plu_threshold_R. apply small_threshold; [apply plu_scale_nonneg|].
+  apply Rle_trans with 1; [|apply pow_R1_Rle; lra].
+  apply plu_scale_le; [lra|]. intros i j Hi Hj.
+  destruct i as [|[|i]]; destruct j as [|[|j]]; try lia;
+    rewrite ?E00, ?E01, ?E10, ?E11, ?Rabs_R0, ?Rabs_R1; lra.
 Qed.
 
 (* a matrix that plu accepts has a trivial kernel; hence a right null vector (zero column,
